@@ -94,7 +94,7 @@ func memberPredicates(tree T, attrs []*big.Int, disclosed []int, lm, lmCommit ui
 			}
 		}
 	}
-	if len(ad) != len(disclosed) || len(ar) != len(attrs)-len(disclosed) {
+	if len(ad) != len(dset) || len(ar) != len(attrs)-len(dset) {
 		return "shape"
 	}
 	// no hidden value (or its exponent) appears among the numbers of the proof
@@ -187,8 +187,21 @@ func genC04(g *Rng, tier string, emit func(Op)) {
 				}
 				for mask := 0; mask < 1<<k; mask++ {
 					disclosed := subsetOf(mask, k)
+					// a disclosure *set* may be given in any order (e.g. the order of a verifier's
+					// request) and may repeat an index
+					switch {
+					case len(disclosed) >= 2 && mask%3 == 1:
+						g.r.Shuffle(len(disclosed), func(i, j int) { disclosed[i], disclosed[j] = disclosed[j], disclosed[i] })
+					case len(disclosed) >= 2 && mask%3 == 2:
+						for i, j := 0, len(disclosed)-1; i < j; i, j = i+1, j-1 {
+							disclosed[i], disclosed[j] = disclosed[j], disclosed[i]
+						}
+					}
 					if !nonrev {
 						emit(replayDOp(g, kp, cred, disclosed, mask%2 == 0))
+					}
+					if len(disclosed) >= 1 && mask%4 == 3 {
+						disclosed = append(disclosed, disclosed[0]) // repeated index (model prover not involved)
 					}
 					for _, issig := range []bool{false, true} {
 						if tier != "thorough" && issig && mask%3 != 0 {
